@@ -1,100 +1,366 @@
-"""C19: the tables of xlcalculator/xlfunctions/engineering.py, read from the *running* module.
+"""C19: what `Gen.C19Eng` holds is obtained by PROBING the registered functions (`xl.FUNCTIONS[...]`
+after `import xlcalculator`), not by reading module constants or source text: a refactoring that keeps
+the behaviour (tables built differently, renamed helpers, a regex instead of a set) generates the same
+file, and a change of behaviour (a bound, a digit, a width, a swapped wrapper) changes it.
 
-PERMITTED_DIGITS, BIT_WIDTHS, BASE_NUMBERS are dictionaries keyed by the builtins `bin`, `oct`, `hex`;
-BOUNDS is keyed by frozensets of two of {bin, oct, hex, "dec"}.  Keys are printed as constructors of
-`Gen.C19Eng.EBase`; an unknown key (a renamed base) makes the extractor fail, which the check reports
-as a broken tie.  Rows are printed in a canonical order (bin < oct < dec < hex, characters by code
-point) so that a formatting-only rewrite of the source does not change the generated file.
+probed                                   how
+---------------------------------------  -----------------------------------------------------------------
+wrappers (origin, destination, places?)  each registered name is matched against the twelve reference
+                                         conversions on a handful of arguments; `places?` = a second
+                                         argument is accepted (no TypeError)
+permittedDigits per base                 X2DEC on every single character of a universe of ~1500 code
+                                         points (all of U+0000..U+024F, the digit/letter look-alikes of
+                                         other scripts): permitted = the answer is not #NUM!
+digitsPerCharacter                       two-character texts: accepted iff both characters are permitted
+baseNumbers                              X2DEC("10")
+signWidths (origin)                      the k with X2DEC(digits of 2^k) = -2^k  -> k+1
+bitWidths (destination)                  DEC2X(-1) = digits of 2^w - 1
+maxDigits per base                       X2DEC("0"*k), k = 1..40
+bounds per (origin, destination)         smallest / largest accepted integer by bisection (through the
+                                         reference digits of the origin base when it is not decimal)
+placesMin, placesMax                     DEC2X(0, p), p = -3..15, on all places-taking functions
+upperCase, negativeKeepsDigits           outputs of DEC2HEX(-1), DEC2HEX(171), X(-1, 3)
+
+Module constants (BIT_WIDTHS, BASE_NUMBERS) are read only as a fallback when a probe is inconclusive
+(which happens only when the behaviour is already broken), and reading them never raises.  `emit()`
+itself raises only if the registry cannot be imported at all.
 """
 from ._lean import chars, lst
 
 ORDER = ['bin', 'oct', 'dec', 'hex']
+RADIX = {'bin': 2, 'oct': 8, 'hex': 16}
+FMT = {'bin': 'b', 'oct': 'o', 'hex': 'X'}
+NOMINAL_BITS = {'bin': 10, 'oct': 30, 'hex': 40}
+TWELVE = ['BIN2DEC', 'BIN2HEX', 'BIN2OCT', 'DEC2BIN', 'DEC2HEX', 'DEC2OCT',
+          'HEX2BIN', 'HEX2DEC', 'HEX2OCT', 'OCT2BIN', 'OCT2DEC', 'OCT2HEX']
+NUM, VALUE = '#NUM!', '#VALUE!'
+
+
+def universe():
+    cps = list(range(0x0000, 0x0250))
+    for lo, hi in ((0x0660, 0x066A), (0x06F0, 0x06FA), (0x0966, 0x0970), (0x2070, 0x207A), (0x2080, 0x208A),
+                   (0x2160, 0x2170), (0x2460, 0x2469), (0xFF10, 0xFF1A), (0xFF21, 0xFF3B), (0xFF41, 0xFF5B),
+                   (0x1D7CE, 0x1D800), (0x0391, 0x03A0), (0x0410, 0x0420)):
+        cps.extend(range(lo, hi))
+    return [chr(c) for c in cps if not (0xD800 <= c < 0xE000)]
+
+
+def outcome(f, *args):
+    """('v', python value) | ('e', '#NUM!') | ('x', 'ExceptionClass')"""
+    from xlcalculator.xlfunctions import xlerrors
+    try:
+        r = f(*args)
+    except Exception as exc:  # noqa: BLE001 - an escaping exception is an outcome of the probe
+        return ('x', type(exc).__name__)
+    if isinstance(r, xlerrors.ExcelError):
+        return ('e', str(r.value))
+    return ('v', getattr(r, 'value', r))
+
+
+def ref_digits(base, n):
+    return format(n & ((1 << NOMINAL_BITS[base]) - 1), FMT[base])
+
+
+def ref_outcome(o, d, x):
+    """reference outcome of converting argument x from side o to side d (ten-digit two's complement)"""
+    if o == 'dec':
+        if not isinstance(x, int):
+            return None
+        n = x
+    else:
+        s = str(x)
+        if not (1 <= len(s) <= 10) or any(c not in '0123456789ABCDEFabcdef'[:RADIX[o] if o != 'hex' else 22]
+                                          for c in s):
+            return ('e', NUM)
+        v = int(s, RADIX[o])
+        n = v - (1 << NOMINAL_BITS[o]) if v >= (1 << (NOMINAL_BITS[o] - 1)) else v
+    if d == 'dec':
+        return ('v', n)
+    if not (-(1 << (NOMINAL_BITS[d] - 1)) <= n < (1 << (NOMINAL_BITS[d] - 1))):
+        return ('e', NUM)
+    return ('v', ref_digits(d, n))
+
+
+MATCH_ARGS = [-1, -300, -513, 0, 7, 9, 15, 255, 600, 70000, 1 << 30, '10', '17', '1F', '777', '1111111111', '7777777777',
+              'FFFFFFFFFF', 'FFFFFFFE00', '3777777000']
+
+
+def probe_wrapper(f):
+    """(origin, destination, takes places?) of a registered function, or None."""
+    got = [outcome(f, x) for x in MATCH_ARGS]
+    best, best_score, tie = None, -1.0, False
+    for o in ORDER:
+        for d in ORDER:
+            if o == d:
+                continue
+            hit = total = 0
+            for x, g in zip(MATCH_ARGS, got):
+                r = ref_outcome(o, d, x)
+                if r is None:
+                    continue
+                total += 1
+                if r == g and type(r[1]) is type(g[1]):
+                    hit += 1
+            score = hit / total if total else 0.0
+            if score > best_score:
+                best, best_score, tie = (o, d), score, False
+            elif score == best_score:
+                tie = True
+    if best is None or tie or best_score < 0.6:
+        return None
+    o, d = best
+    arg = 1 if o == 'dec' else '1'
+    takes = outcome(f, arg, 1) != ('x', 'TypeError')
+    return (o, d, takes)
+
+
+def bisect_largest(accepted, lo, hi):
+    """largest n in [lo, hi] with accepted(n), assuming accepted(lo) and monotone; lo if none beyond."""
+    if accepted(hi):
+        return hi
+    while hi - lo > 1:
+        mid = (lo + hi) // 2
+        if accepted(mid):
+            lo = mid
+        else:
+            hi = mid
+    return lo
+
+
+def fallback_constant(name, base):
+    """informational fallback: a module constant keyed by the builtin; never raises"""
+    try:
+        import importlib
+        eng = importlib.import_module('xlcalculator.xlfunctions.engineering')
+        table = getattr(eng, name, None)
+        key = {'bin': bin, 'oct': oct, 'hex': hex}[base]
+        v = table.get(key) if isinstance(table, dict) else None
+        return int(v) if isinstance(v, int) and not isinstance(v, bool) else None
+    except Exception:  # noqa: BLE001
+        return None
+
+
+def probe_tables():
+    """Plain-Python description of the behaviour of the registered functions (see module docstring)."""
+    from xlcalculator.xlfunctions import xl
+    import xlcalculator  # noqa: F401
+    F = xl.FUNCTIONS
+    t = {'wrappers': [], 'digits': {}, 'per_character': True, 'bases': {}, 'sign_widths': {}, 'widths': {},
+         'max_digits': {}, 'bounds': [], 'places_min': 1, 'places_max': 0, 'upper': True, 'neg_keeps': True,
+         'notes': []}
+
+    # ---- which conversion each registered name performs
+    by_pair = {}
+    for name in TWELVE:
+        f = F.get(name)
+        if f is None:
+            continue
+        w = probe_wrapper(f)
+        if w is None:
+            t['notes'].append(f'{name}: conversion not recognised')
+            continue
+        t['wrappers'].append((name, w[0], w[1], w[2]))
+        by_pair.setdefault((w[0], w[1]), f)
+
+    def reader(base):       # a function that reads digit strings of `base`, preferring X2DEC
+        for d in ('dec', 'bin', 'oct', 'hex'):
+            if (base, d) in by_pair:
+                return by_pair[(base, d)], d
+        return None, None
+
+    def writer(base):       # a function that writes digits of `base`, preferring DEC2X
+        for o in ('dec', 'bin', 'oct', 'hex'):
+            if (o, base) in by_pair:
+                return by_pair[(o, base)], o
+        return None, None
+
+    uni = universe()
+    for base in ('bin', 'oct', 'hex'):
+        f, d = reader(base)
+        if f is not None:
+            # ---- permitted characters: everything that is not refused with #NUM!
+            perm = [c for c in uni if outcome(f, c) != ('e', NUM)]
+            t['digits'][base] = ''.join(sorted(perm))
+            # ---- validation is per character: a two-character text passes iff both characters do
+            refused = ['2', '8', 'G', 'g', ' ', '-', '+', '.', '_', 'x', '\n', '１', '١']
+            refused = [c for c in refused if c not in perm]
+            for a in perm:
+                for b in perm:
+                    if outcome(f, a + b) == ('e', NUM):
+                        t['per_character'] = False
+                for b in refused:
+                    if outcome(f, a + b) != ('e', NUM) or outcome(f, b + a) != ('e', NUM):
+                        t['per_character'] = False
+            # ---- the radix of int(text, base)
+            r = outcome(f, '10') if d == 'dec' else None
+            if r is not None and r[0] == 'v' and isinstance(r[1], int) and not isinstance(r[1], bool):
+                t['bases'][base] = int(r[1])
+            else:
+                v = fallback_constant('BASE_NUMBERS', base)
+                if v is not None:
+                    t['bases'][base] = v
+                    t['notes'].append(f'{base}: radix from the module constant')
+            # ---- the sign bit of the origin
+            hits = []
+            if d == 'dec':
+                k = 0
+                while len(format(1 << k, FMT[base])) <= 12:
+                    if outcome(f, format(1 << k, FMT[base])) == ('v', -(1 << k)):
+                        hits.append(k)
+                    k += 1
+            if len(hits) == 1:
+                t['sign_widths'][base] = hits[0] + 1
+            else:
+                v = fallback_constant('BIT_WIDTHS', base)
+                if v is not None:
+                    t['sign_widths'][base] = v
+                    t['notes'].append(f'{base}: sign width from the module constant')
+            # ---- how many digits are read
+            ks = [k for k in range(1, 41) if outcome(f, '0' * k)[0] == 'v']
+            if ks and ks == list(range(1, ks[-1] + 1)):
+                t['max_digits'][base] = ks[-1]
+        g, o = writer(base)
+        if g is not None:
+            # ---- the wrap of a negative number in the destination
+            r = outcome(g, -1) if o == 'dec' else None
+            w = None
+            if r is not None and r[0] == 'v' and isinstance(r[1], str):
+                try:
+                    v = int(r[1], RADIX[base])
+                    if v > 0 and (v + 1) & v == 0:
+                        w = (v + 1).bit_length() - 1
+                except ValueError:
+                    pass
+            if w is None:
+                w = fallback_constant('BIT_WIDTHS', base)
+                if w is not None:
+                    t['notes'].append(f'{base}: wrap width from the module constant')
+            if w is not None:
+                t['widths'][base] = w
+
+    # ---- the accepted integers of every conversion, by bisection
+    for (o, d), f in sorted(by_pair.items(), key=lambda kv: (ORDER.index(kv[0][0]), ORDER.index(kv[0][1]))):
+        if o == 'dec':
+            def accepted(n, f=f):
+                return outcome(f, n)[0] == 'v'
+            top, bottom = 1 << 70, -(1 << 70)
+        else:
+            def accepted(n, f=f, o=o):
+                return outcome(f, ref_digits(o, n))[0] == 'v'
+            top, bottom = (1 << (NOMINAL_BITS[o] - 1)) - 1, -(1 << (NOMINAL_BITS[o] - 1))
+        if not accepted(0):
+            t['notes'].append(f'{o}->{d}: 0 is not accepted')
+            continue
+        hi = bisect_largest(accepted, 0, top)
+        lo = -bisect_largest(lambda m: accepted(-m), 0, -bottom)
+        t['bounds'].append((o, d, lo, hi))
+
+    # ---- places
+    ranges = set()
+    for name, o, d, takes in t['wrappers']:
+        if not takes:
+            continue
+        f = F[name]
+        arg = 0 if o == 'dec' else '0'
+        ok = [p for p in range(-3, 16) if outcome(f, arg, p)[0] == 'v']
+        if ok and ok == list(range(ok[0], ok[-1] + 1)):
+            ranges.add((ok[0], ok[-1]))
+        else:
+            ranges.add(None)
+    if len(ranges) == 1 and None not in ranges:
+        t['places_min'], t['places_max'] = next(iter(ranges))
+    elif ranges:
+        t['notes'].append(f'places ranges differ between functions: {sorted(map(str, ranges))}')
+        first = [r for r in ranges if r is not None]
+        if first:
+            t['places_min'], t['places_max'] = sorted(first)[0]
+
+    # ---- upper case, and a negative result keeps its digits whatever `places` says
+    outs = []
+    for name, o, d, takes in t['wrappers']:
+        if d == 'dec':
+            continue
+        f = F[name]
+        neg = -1 if o == 'dec' else ref_digits(o, -1)
+        pos = (171 if o != 'bin' else 5) if o == 'dec' else ref_digits(o, 171 if o != 'bin' else 5)
+        for r in (outcome(f, neg), outcome(f, pos)):
+            if r[0] == 'v' and isinstance(r[1], str):
+                outs.append(r[1])
+        if takes:
+            if outcome(f, neg, 3) != outcome(f, neg) or outcome(f, neg)[0] != 'v':
+                t['neg_keeps'] = False
+    t['upper'] = bool(outs) and all(s == s.upper() for s in outs)
+    if not any(takes for _, _, _, takes in t['wrappers']):
+        t['neg_keeps'] = False
+    return t
+
+
+def digest(t):
+    """the string digest the Lean driver prints for `C19 TABLES` (twin of Drv/C19.lean `tables`)"""
+    def by_base(d):
+        return ','.join(f'{k}:{d[k]}' for k in ORDER if k in d)
+    return {
+        'digits': by_base({k: '.'.join(str(ord(c)) for c in v) for k, v in t['digits'].items()}),
+        'percharacter': 'true' if t['per_character'] else 'false',
+        'bases': by_base(t['bases']),
+        'signwidths': by_base(t['sign_widths']),
+        'widths': by_base(t['widths']),
+        'maxdigits': by_base(t['max_digits']),
+        'bounds': ','.join(f'{o}>{d}:{lo}..{hi}' for o, d, lo, hi in t['bounds']),
+        'places': f"{t['places_min']}..{t['places_max']}",
+        'upper': 'true' if t['upper'] else 'false',
+        'negkeeps': 'true' if t['neg_keeps'] else 'false',
+        'wrappers': ','.join(f'{n}:{o}>{d}' + ('+p' if p else '') for n, o, d, p in t['wrappers']),
+    }
 
 
 def emit():
-    import importlib
-    eng = importlib.import_module('xlcalculator.xlfunctions.engineering')
-    names = {bin: 'bin', oct: 'oct', hex: 'hex', eng.dec: 'dec'}
+    t = probe_tables()
 
-    def key(k):
-        if k not in names:
-            raise ValueError(f'engineering.py: unknown base key {k!r}')
-        return names[k]
+    def by_base(d, f):
+        return [f'(.{k}, {f(d[k])})' for k in ORDER if k in d]
 
-    def by_base(d, what):
-        if not isinstance(d, dict):
-            raise ValueError(f'engineering.{what} is not a dict')
-        rows = [(key(k), v) for k, v in d.items()]
-        return sorted(rows, key=lambda r: ORDER.index(r[0]))
+    def integer(z):
+        return f'({int(z)} : Int)'
 
-    digits = [f'(.{k}, {chars("".join(sorted(str(c) for c in v)))})'
-              for k, v in by_base(eng.PERMITTED_DIGITS, 'PERMITTED_DIGITS')]
-    for _, v in by_base(eng.PERMITTED_DIGITS, 'PERMITTED_DIGITS'):
-        if any(not (isinstance(c, str) and len(c) == 1) for c in v):
-            raise ValueError('PERMITTED_DIGITS holds something that is not a single character')
-    widths = []
-    for k, v in by_base(eng.BIT_WIDTHS, 'BIT_WIDTHS'):
-        if not (isinstance(v, int) and not isinstance(v, bool)):
-            raise ValueError(f'BIT_WIDTHS[{k}] is not an int')
-        widths.append(f'(.{k}, ({int(v)} : Int))')
-    bases = []
-    for k, v in by_base(eng.BASE_NUMBERS, 'BASE_NUMBERS'):
-        if not (isinstance(v, int) and not isinstance(v, bool) and v >= 0):
-            raise ValueError(f'BASE_NUMBERS[{k}] is not a natural number')
-        bases.append(f'(.{k}, {int(v)})')
-    bounds = []
-    for fs, v in eng.BOUNDS.items():
-        ks = sorted((key(k) for k in fs), key=ORDER.index)
-        if len(ks) == 1:
-            ks = ks * 2
-        if len(ks) != 2:
-            raise ValueError(f'BOUNDS key {fs!r} is not a set of one or two bases')
-        if not (isinstance(v, int) and not isinstance(v, bool)):
-            raise ValueError(f'BOUNDS[{fs!r}] is not an int')
-        bounds.append((ORDER.index(ks[0]), ORDER.index(ks[1]), f'(.{ks[0]}, .{ks[1]}, ({int(v)} : Int))'))
-    bounds = [b[2] for b in sorted(bounds)]
+    digits = by_base(t['digits'], chars)
+    bases = by_base(t['bases'], lambda v: str(int(v)) if v >= 0 else '0')
+    sign_widths = by_base(t['sign_widths'], integer)
+    widths = by_base(t['widths'], integer)
+    max_digits = by_base(t['max_digits'], lambda v: str(int(v)))
+    bounds = [f'(.{o}, .{d}, {integer(lo)}, {integer(hi)})' for o, d, lo, hi in t['bounds']]
+    wrappers = [f'({chars(n)}, .{o}, .{d}, {"true" if p else "false"})' for n, o, d, p in t['wrappers']]
+    notes = ''.join(f'-- probe note: {n}\n' for n in t['notes'])
+    b = lambda x: 'true' if x else 'false'   # noqa: E731
 
-    # which (origin, destination) pair each registered wrapper passes to convert_bases: read from the
-    # running functions by calling them with convert_bases replaced by a recorder
-    wrappers = []
-    from xlcalculator.xlfunctions import xl
-    import xlcalculator  # noqa: F401
-    seen = {}
-    real_cb = eng.convert_bases
-
-    def recorder(number, origin, destination, places=None):
-        seen['call'] = (key(origin), key(destination), places is not None)
-        return 0 if key(destination) == 'dec' else '0'
-    for fname in ['BIN2DEC', 'BIN2HEX', 'BIN2OCT', 'DEC2BIN', 'DEC2HEX', 'DEC2OCT',
-                  'HEX2BIN', 'HEX2DEC', 'HEX2OCT', 'OCT2BIN', 'OCT2DEC', 'OCT2HEX']:
-        f = xl.FUNCTIONS.get(fname)
-        if f is None or getattr(f, '__module__', '').rsplit('.', 1)[-1] != 'engineering':
-            continue        # absence is reported by the registry obligation in Props/C19
-        seen.clear()
-        eng.convert_bases = recorder
-        try:
-            f(0)
-        finally:
-            eng.convert_bases = real_cb
-        if 'call' not in seen:
-            raise ValueError(f'{fname} does not call convert_bases')
-        o, d, hp = seen['call']
-        wrappers.append(f'({chars(fname)}, .{o}, .{d}, {"true" if hp else "false"})')
-
-    body = f'''namespace XlVerif.Gen.C19Eng
-/-- The keys of the engineering tables: the builtins `bin`, `oct`, `hex` and the string `"dec"`. -/
+    body = f'''{notes}namespace XlVerif.Gen.C19Eng
+/-- The sides of a conversion: the bases `bin`, `oct`, `hex` and decimal numbers. -/
 inductive EBase | bin | oct | dec | hex
   deriving DecidableEq, Repr, Inhabited
-/-- `PERMITTED_DIGITS`: base, its set of characters (sorted by code point). -/
-def permittedDigits : List (EBase × List Char) := {lst(digits)}
-/-- `BIT_WIDTHS`. -/
-def bitWidths : List (EBase × Int) := {lst(widths)}
-/-- `BASE_NUMBERS`. -/
-def baseNumbers : List (EBase × Nat) := {lst(bases)}
-/-- `BOUNDS`: the two members of the frozenset key (ordered bin < oct < dec < hex), the bound. -/
-def bounds : List (EBase × EBase × Int) := {lst(bounds)}
-/-- What each registered wrapper hands to `convert_bases`: name, origin, destination, passes `places`? -/
-def wrappers : List (List Char × EBase × EBase × Bool) := {lst(wrappers)}
+/-- Per base: the characters a digit string may consist of (every character X2DEC does not refuse with
+    #NUM!, out of a universe of ~1500 code points; sorted by code point). -/
+def permittedDigits : List (EBase × List Char) := {lst(digits, 'EBase × List Char')}
+/-- Digit validation is per character: a two-character text passes iff both characters are permitted. -/
+def digitsPerCharacter : Bool := {b(t['per_character'])}
+/-- Per base: the radix digit strings are read in (X2DEC("10")). -/
+def baseNumbers : List (EBase × Nat) := {lst(bases, 'EBase × Nat')}
+/-- Per origin base: width w such that bit w−1 of a digit string is the sign. -/
+def signWidths : List (EBase × Int) := {lst(sign_widths, 'EBase × Int')}
+/-- Per destination base: width w such that a negative number is written as its value + 2^w. -/
+def bitWidths : List (EBase × Int) := {lst(widths, 'EBase × Int')}
+/-- Per origin base: the largest number of digits that is read. -/
+def maxDigits : List (EBase × Nat) := {lst(max_digits, 'EBase × Nat')}
+/-- Per conversion (origin, destination): the smallest and the largest integer that is converted. -/
+def bounds : List (EBase × EBase × Int × Int) := {lst(bounds, 'EBase × EBase × Int × Int')}
+/-- The accepted `places` values. -/
+def placesMin : Int := {integer(t['places_min'])}
+def placesMax : Int := {integer(t['places_max'])}
+/-- Digits are written in upper case. -/
+def upperCase : Bool := {b(t['upper'])}
+/-- A negative result keeps its digits whatever (valid) `places` says. -/
+def negativeKeepsDigits : Bool := {b(t['neg_keeps'])}
+/-- What each registered name converts: name, origin, destination, takes `places`? -/
+def wrappers : List (List Char × EBase × EBase × Bool) := {lst(wrappers, 'List Char × EBase × EBase × Bool')}
 end XlVerif.Gen.C19Eng
 '''
     return {'C19Eng': body}
